@@ -25,6 +25,9 @@ OrphanClass == KF_ResyncOrphan([S0 EXCEPT !.blob = [i \in IDs |-> i \in blobs]])
 \* order independence outside the listed conflict class (live lock and tombstone of one target both present)
 C18_Model_OrderIndependent == (Constructible /\ ~Conflict /\ ~AbortClass /\ ~OrphanClass
                                /\ ~KF_ResyncExpiredParent([S0 EXCEPT !.blob = [i \in IDs |-> i \in blobs]], ep)) => \A p \in Perms(blobs) : St(p) = St(SortedSeq(blobs))
+\* the same without the listed exclusion classes: MUST be violated on catalogues containing those classes (anti-vacuity:
+\* the classes are real on the model, see checks/C18.py thorough tier)
+C18_Model_StrictOrderIndependent == Constructible => \A p \in Perms(blobs) : St(p) = St(SortedSeq(blobs))
 \* and the rebuild equals the incremental construction wherever that is defined: no constructible set aborts the resync
 C18_Model_NoAbort == (Constructible /\ ~AbortClass) => \A p \in Perms(blobs) : St(p)[1] = "ok"
 =============================================================================
